@@ -29,6 +29,38 @@ def main():
             short = [t.split(".")[-1] for t in thms]
             out.append("`" + "`, `".join(short) + "`\n")
     out.append("\n## Appendix E — seeded changes and which check catches them (generated from seeded/*/meta.json)\n")
+    # summary per round
+    rounds = {}
+    for d in sorted(glob.glob(os.path.join(HERE, "seeded", "*"))):
+        mp = os.path.join(d, "meta.json")
+        if not os.path.exists(mp):
+            continue
+        m = json.load(open(mp))
+        name = os.path.basename(d)
+        rnd = "round 3" if "-r3-" in name else ("round 2" if "-r2-" in name else "round 1")
+        if name == "C12-overlap" or m.get("status", "").startswith("superseded"):
+            rnd = "other (pre-fix tree / superseded)"
+        pid = m.get("property", name.split("-")[0])
+        det = m.get("detected_by") or []
+        own = [x for x in det if x.startswith(pid + " ")]
+        first = any("exit 1" in x and "missed" not in x.lower() for x in own)
+        later = any("exit 1" in x and "missed" in x.lower() for x in own)
+        sib = any("exit 1" in x for x in det if not x.startswith(pid + " "))
+        r = rounds.setdefault(rnd, {"n": 0, "first": 0, "later": 0, "sibling": 0, "open": 0})
+        r["n"] += 1
+        if first:
+            r["first"] += 1
+        elif later:
+            r["later"] += 1
+        elif sib:
+            r["sibling"] += 1
+        else:
+            r["open"] += 1
+    out.append("| round | seeded | caught by the property's own check at first run | caught by it after strengthening | so far caught only by a sibling property's check | not caught |\n|---|---|---|---|---|---|\n")
+    for rnd in sorted(rounds):
+        r = rounds[rnd]
+        out.append("| %s | %d | %d | %d | %d | %d |\n" % (rnd, r["n"], r["first"], r["later"], r["sibling"], r["open"]))
+    out.append("\n")
     out.append("| seeded change | property | what it does | detected by |\n|---|---|---|---|\n")
     for d in sorted(glob.glob(os.path.join(HERE, "seeded", "*"))):
         mp = os.path.join(d, "meta.json")
